@@ -101,6 +101,9 @@ func backendProp(b backendSpec, meaning string) propFunc {
 			r.Clauses = append(r.Clauses, boundsStrictClause)
 			c.runBoundsStrict(r, "bounds.strict", inPkgs("msl"))
 			r.floor("bounds.strict", 4)
+			r.Clauses = append(r.Clauses, runtimeArrClause)
+			c.runRuntimeArrayShapes(r, "runtimearray.shapes", inPkgs("msl"))
+			r.floor("runtimearray.shapes", 1)
 			r.Clauses = append(r.Clauses, guardAgreeClause)
 			c.runGuardAgree(r, "guard.agree", inPkgs("msl"))
 			r.floor("guard.agree", 3)
